@@ -121,3 +121,14 @@ Proof.
   - destruct H1 as (b1&x1&E1&_), H2 as (b2&x2&E2&_). rewrite E1, E2.
     split; intros (s&Hs); discriminate Hs.
 Qed.
+
+(* Known finding F30: a line counter over what has been read ahead is not chunk-invariant: after
+   the consumer's first refill (512 bytes asked, as encoding/json does) AtLine differs between two
+   chunkings of the same bytes. *)
+Theorem line_count_readahead_refuted :
+  exists cs cs' wl t, concat cs = concat cs' /\ runs_ok cs = true /\ runs_ok cs' = true /\
+    fst (snd (lcr_read (1, mkSrc cs wl t) 512)) <> fst (snd (lcr_read (1, mkSrc cs' wl t) 512)).
+Proof.
+  exists [[x5b; x0a; x31; x0a; x5d; x0a]], [[x5b]; [x0a; x31; x0a; x5d; x0a]], false, TEof.
+  repeat split; try reflexivity. vm_compute. discriminate.
+Qed.
